@@ -13,7 +13,7 @@
 // Sanitizer aborts, signals and std::terminate on real threads are seen by the framework (`crash:`).
 //
 // Ops (one output line each):
-//   cfg [tok=<hex>]              fresh node + control server                          -> ok
+//   cfg [tok=<hex>] [relay=1]    fresh node + control server (relay=1: with a RelayClient object)   -> ok
 //   peer <name> <key64hex>       install a 32-byte session key for peer <name>         -> ok
 //   adv <ns>                     advance the virtual clock                             -> ok
 //   frame <peer> <plainhex> [raw=<hex>]   one transport frame (encrypted by the harness with the
@@ -23,7 +23,9 @@
 //   hs <rawhex>                  bytes of a new inbound transport connection (peer id, length, handshake)
 //                                                                                      -> <st> acc=<0|1>
 //   ctl <rawhex>                 bytes of one control connection                       -> <st> held=<..> resp=<STATUS>/<CODE>
-//   tick                         Node::tick()                                          -> <st>
+//   tick                         Node::tick()                                          -> <st> due=<..> relay=<0|1>
+//                                due = pending fetches this tick retries by dialling (announcer has no live session):
+//                                <chunk8>:<announced endpoint hex|->:<relay hint endpoints hex joined by +|->,...
 //   rt <scenario>                real threads, real sockets (thorough tier)            -> ok ...
 // <st> = ok | escape:<exception class>
 // hints (state observed *before* the op, by harness code that does not run the code under test's
@@ -94,6 +96,7 @@ std::mutex node_mutex;
 std::unique_ptr<daemon::ControlServer::Impl> impl;
 std::optional<std::string> cfg_token;
 std::size_t cfg_stream_cap = 1u << 20;
+bool cfg_relay = false;
 int stops = 0;
 std::uint64_t nonce_counter = 1;
 std::map<std::string, std::array<std::uint8_t, 32>> peer_keys;
@@ -155,7 +158,12 @@ void ensure() {
     c.handshake_pow_difficulty = 0;
     c.store_pow_difficulty = 0;
     c.nat_stun_enabled = false;
-    c.relay_enabled = false;
+    c.relay_enabled = cfg_relay;
+    if (cfg_relay) {
+        // a RelayClient object exists (relay hints of manifests are then parsed and dialled by request_chunk);
+        // it is never started in the synchronous ops, and its relay is a closed loopback port
+        c.relay_endpoints.push_back(Config::RelayEndpoint{"127.0.0.1", 9});
+    }
     c.control_stream_max_bytes = cfg_stream_cap;
     c.control_token = cfg_token;
     c.handshake_cooldown = std::chrono::seconds(0);
@@ -305,6 +313,38 @@ std::string run_reader(const std::string& peer, const std::vector<std::uint8_t>&
     const auto back = drain(sv[1], 0);
     ::close(sv[1]);
     return st + " cm=" + hint + " r=" + replies(back, kit->second);
+}
+
+// pending fetches the next tick will retry by dialling (no live session to the announcer): for each the
+// announced endpoint and the relay hints of its manifest, as the strings the node stored (hint for the driver)
+std::string due_fetches() {
+    std::string out;
+    const auto now = std::chrono::steady_clock::now();
+    std::unique_lock<std::recursive_mutex> lock(node->scheduler_mutex_);
+    for (const auto& [key, st] : node->pending_chunk_fetches_) {
+        if (st.next_attempt == std::chrono::steady_clock::time_point::max() || now < st.next_attempt) continue;
+        if (node->sessions_.is_connected(st.peer_id)) continue;
+        protocol::Manifest m;
+        bool usable = false;
+        try {
+            m = protocol::decode_manifest(st.manifest_uri);
+            usable = ttl_ok(m);
+        } catch (const std::exception&) {
+        }
+        if (!usable) continue;
+        bool held = false;
+        for (const auto& e : node->chunk_store_.snapshot()) if (e.id == st.chunk_id) held = true;
+        if (held) continue;
+        std::string hints;
+        for (const auto& h : m.discovery_hints) {
+            if (h.transport != "relay") continue;
+            if (!hints.empty()) hints += "+";
+            hints += verif::hex_or_dash(verif::to_hex(h.endpoint));
+        }
+        if (!out.empty()) out += ",";
+        out += verif::to_hex(st.chunk_id).substr(0, 8) + ":" + verif::hex_or_dash(verif::to_hex(st.endpoint)) + ":" + (hints.empty() ? "-" : hints);
+    }
+    return out.empty() ? "-" : out;
 }
 
 // ---- control request inspection (harness side: hint + safety) ---------------------------------
@@ -587,6 +627,7 @@ std::string real_threads(const std::string& scenario) {
     drop_all();
     cfg_token.reset();
     cfg_stream_cap = scenario == "stall" ? (32u << 20) : (1u << 20);
+    cfg_relay = false;
     ensure();
     cfg_stream_cap = 1u << 20;
     ticker_run = true;
@@ -698,6 +739,7 @@ int main(int argc, char** argv) {
     h.reset = [] {
         drop_all();
         cfg_token.reset();
+        cfg_relay = false;
         wipe_scratch();
         verif::vclock_set(verif::kVclockStart);
         nonce_counter = 1;
@@ -707,7 +749,9 @@ int main(int argc, char** argv) {
         if (op == "cfg") {
             drop_all();
             cfg_token.reset();
+            cfg_relay = false;
             for (std::size_t i = 1; i < t.size(); ++i) {
+                if (t[i] == "relay=1") cfg_relay = true;
                 if (t[i].rfind("tok=", 0) == 0 && t[i] != "tok=-") {
                     const auto b = verif::from_hex(t[i].substr(4));
                     cfg_token = std::string(b.begin(), b.end());
@@ -759,7 +803,9 @@ int main(int argc, char** argv) {
         if (op == "hs" && t.size() == 2) return run_handshake(verif::from_hex(t[1]));
         if (op == "ctl" && t.size() == 2) return run_control(verif::from_hex(t[1]));
         if (op == "tick" && t.size() == 1) {
-            return guarded([&] { std::scoped_lock lock(node_mutex); node->tick(); });
+            const auto due = due_fetches();
+            return guarded([&] { std::scoped_lock lock(node_mutex); node->tick(); }) + " due=" + due +
+                   " relay=" + (cfg_relay ? "1" : "0");
         }
         return "bad-op";
     };
